@@ -38,7 +38,10 @@ class DeviceConfigurationAck(KNXIPBodyResponse):
             raise CouldNotParseKNXIP("DeviceConfigurationAck body has invalid length")
         self.communication_channel_id = raw[1]
         self.sequence_counter = raw[2]
-        self.status_code = ErrorCode(raw[3])
+        try:
+            self.status_code = ErrorCode(raw[3])
+        except ValueError as err:
+            raise CouldNotParseKNXIP(f"unsupported status code: {raw[3]:#x}") from err
         return DeviceConfigurationAck.BODY_LENGTH
 
     def to_knx(self) -> bytes:
